@@ -156,7 +156,7 @@ PROPS = {
     },
     "C13": {
         "modules": ["PgBifrost.Props.C13"],
-        "components": ["rabbit"],
+        "components": ["rabbit", "rabbitconn"],
         "required_theorems": ["PgBifrost.Props.C13.rabbit_written_all_confirmed", "PgBifrost.Props.C13.rabbit_written_all_confirmed_run",
                               "PgBifrost.Props.C13.rabbit_retry_republishes_unconfirmed", "PgBifrost.Props.C13.rabbit_no_wedge_on_close",
                               "PgBifrost.Props.C13.rabbit_spec_ok_of_fixed", "PgBifrost.Props.C13.rabbit_attempt_as_in_source", "PgBifrost.Props.C13.rabbit_loop_as_in_source"],
